@@ -56,36 +56,42 @@ def count_lines(path):
 
 
 def execute(cases, out, timeout_ms=20000, dom_max=20000, steps_every=0, nproc=NPROC):
-    """Run the cases on the real library; large inputs are cut into contiguous parts that run in parallel
-    processes (records stay in input order)."""
+    """Run the cases on the real library; large inputs are dealt in blocks to parallel processes
+    (records stay in input order)."""
     total = count_lines(cases)
     if total < 4000 or nproc <= 1:
         return execute1(cases, out, timeout_ms, dom_max, steps_every)
-    per = (total + nproc - 1) // nproc
-    parts = []
+    # blocks of CH consecutive cases are dealt round-robin to the parts, so that a run of slow cases (a family of
+    # deep documents) is spread over all processes; the outputs are merged back in the same pattern
+    CH = 16
+    parts = ['%s.in%02d' % (out, k) for k in range(nproc)]
+    fs = [open(pp, 'w') for pp in parts]
     with open(cases) as f:
-        k = 0
-        cur = None
         for i, line in enumerate(f):
-            if i % per == 0:
-                if cur:
-                    cur.close()
-                pp = '%s.in%02d' % (out, k)
-                parts.append(pp)
-                cur = open(pp, 'w')
-                k += 1
-            cur.write(line)
-        if cur:
-            cur.close()
+            fs[(i // CH) % nproc].write(line)
+    for x in fs:
+        x.close()
     with ThreadPoolExecutor(max_workers=nproc) as ex:
         list(ex.map(lambda pp: execute1(pp, pp + '.out', timeout_ms, dom_max, steps_every), parts))
+    fi = [open(pp + '.out') for pp in parts]
     with open(out, 'w') as fo:
-        for pp in parts:
-            with open(pp + '.out') as fi:
-                shutil.copyfileobj(fi, fo)
-            for x in (pp, pp + '.out', pp + '.out.journal'):
-                if os.path.exists(x):
-                    os.remove(x)
+        live = set(range(nproc))
+        k = 0
+        while live:
+            if k in live:
+                for _ in range(CH):
+                    l = fi[k].readline()
+                    if not l:
+                        live.discard(k)
+                        break
+                    fo.write(l)
+            k = (k + 1) % nproc
+    for x in fi:
+        x.close()
+    for pp in parts:
+        for x in (pp, pp + '.out', pp + '.out.journal'):
+            if os.path.exists(x):
+                os.remove(x)
     return total
 
 
